@@ -547,7 +547,7 @@ fn run_children(thorough: bool, seed: u64, r: &mut Report, classes: &Classes) ->
 /// (d) the Shape-level evaluator wrappers (`ShapeBulkEval` / `ShapeTracingEval` own scratch arrays sized per call): one evaluator
 /// object is used on every ordered pair of (shape, sample count) taken from shapes over different variable subsets and counts
 /// 0, 1, 3, 5, 10; every call must return Ok with exactly the requested number of samples and the right values
-fn shape_reuse(fail: &mut dyn FnMut(&str, String, String)) -> u64 {
+pub fn shape_reuse(fail: &mut dyn FnMut(&str, String, String)) -> u64 {
     use fidget_core::context::Tree;
     use fidget_core::shape::EzShape;
     use fidget_core::vm::VmShape;
